@@ -347,6 +347,14 @@ def run_multi(ctx, table):
             ctx.violation('C15:value:arctan2', 'arctan2(%r,%r): %r, definition (angle of the point (x,y)) gives %r'
                           % (x, y, out.brief(), ref), wit)
         ctx.nontrivial(['arctan2', x, y])
+    # the angle of a point of the real plane: complex coordinates are outside the domain
+    for args in ([1j, 1.0], [1.0, 1j], [1 + 1j, 2.0], [2.0, 3 - 1e-3j], [1j, 1j]):
+        out = call_fn(ctx, table, 'arctan2', list(args))
+        ctx.ev()
+        ctx.count('arctan2_checks')
+        wit = {'function': 'arctan2', 'arguments': list(args), 'outcome': out.brief()}
+        if hygiene(ctx, 'arctan2', [], out, wit) and out.returned:
+            ctx.violation('C15:real_only_accepts_complex:arctan2', 'returned %r' % (out.value,), wit)
     for args in ([1.0], [1.0, 2.0, 3.0]):
         for nm in ('arctan2', 'kronecker'):
             out = call_fn(ctx, table, nm, args)
